@@ -343,6 +343,9 @@ func wellFormedStructure(g *genetics.Genome, ancestors IORoles) error {
 					return fmt.Errorf("module %d is wired to node %d, which is not one of the genome's own nodes", cg.ControlNode.Id, end.Id)
 				}
 			}
+			if l.Trait != nil && !traitSet[l.Trait] {
+				return fmt.Errorf("a link of module %d references a trait (id %d) that is not one of the genome's traits", cg.ControlNode.Id, l.Trait.Id)
+			}
 		}
 	}
 	type key struct {
